@@ -4,6 +4,7 @@ package props
 import (
 	"fmt"
 	"sort"
+	"strings"
 	"time"
 
 	"verif/sim/simrt"
@@ -120,6 +121,8 @@ func finish(s *simrt.Sim, w *world.World, st Stats, deadlockIsViolation bool) Ou
 		case w == nil:
 			// engines without a world translate runtime failures themselves
 			out.Infra = f
+		case f.Kind == simrt.FailPanic && strings.HasPrefix(f.Msg, "fatal error: concurrent map"):
+			out.Viols = append(out.Viols, world.Violation{Prop: prop, Rule: "concurrent-map-access", Signature: prop + "/concurrent-map-access", Msg: f.Msg})
 		case f.Kind == simrt.FailPanic:
 			v := world.Violation{Prop: prop, Rule: "panic-in-goroutine", Signature: prop + "/goroutine-panic", Msg: fmt.Sprintf("a goroutine of the SDK panicked (process crash): %s\n%s", f.Msg, f.Stack)}
 			out.Viols = append(out.Viols, v)
